@@ -7,16 +7,21 @@ import json, os, subprocess, sys, time
 def sh(cmd, **kw):
     return subprocess.run(cmd, shell=True, stdout=subprocess.PIPE, stderr=subprocess.STDOUT, text=True, **kw)
 
+REPO = os.environ.get("VERIF_REPO", "/repo")
+
+
 def main():
     out = sys.argv[1]
     results = json.load(open(out)) if os.path.exists(out) else {}
     for spec in sys.argv[2:]:
         sd, checks = spec.split(":")
         patch = os.path.join(sd, "patch.diff")
-        st = sh("git -C /repo status --porcelain --untracked-files=no").stdout.strip()
+        st = sh("git -C %s status --porcelain --untracked-files=no" % REPO).stdout.strip()
         if st:
             print("repo not clean, abort:", st); sys.exit(2)
-        a = sh("git -C /repo apply %s" % patch)
+        a = sh("git -C %s apply %s" % (REPO, patch))
+        if a.returncode != 0:
+            a = sh("git -C %s apply -3 %s && git -C %s reset -q" % (REPO, patch, REPO))
         if a.returncode != 0:
             results[sd] = {"error": "patch does not apply: " + a.stdout[-300:]}
             continue
@@ -29,7 +34,7 @@ def main():
                 r[c] = {"rc": p.returncode, "wall_s": round(time.time() - t, 1), "lines": lines[:8]}
                 print(sd, c, "rc=%d" % p.returncode, lines[:2], flush=True)
         finally:
-            sh("git -C /repo checkout -- .")
+            sh("git -C %s checkout -- ." % REPO)
         results[sd] = r
         json.dump(results, open(out, "w"), indent=1)
     json.dump(results, open(out, "w"), indent=1)
